@@ -18,6 +18,7 @@ KEC, SHA = 'crysp/keccak.py', 'crysp/sha.py'
 
 
 def run(ctx):
+    integrity(ctx, ['crysp/bits.py', 'crysp/keccak.py', 'crysp/sha.py'])
     ctx.rule('C04-R1 constants')
 
     def rc():
